@@ -39,14 +39,26 @@ def resolve_cache_fns(ctx):
     return True
 
 
-def minimax_outcomes(ctx):
+def minimax_outcomes(ctx, flag=None):
+    """paths of alpha_beta_minimax; with flag = True / False the function is specialised on maximizing_player (so a body shared by both
+    players - `if maximizing_player {..} else {..}` inside one loop - splits into the two branches the rules speak about)"""
     resolve_cache_fns(ctx)
     facts = ctx.facts
     opaque = {n for n in facts.fns if n.startswith('chess::move_generator') or n.startswith(AB + 'prioritize')
               or n.startswith(CHESSMOVE)} | {CHECK, SET, SCORE, BOARD + '::toggle_turn'}
     eng = Engine(facts, opaque=opaque, readonly={BOARD + '::turn', BOARD + '::current_position_hash'}, max_paths=20000)
     ctx.touch(MINIMAX)
-    return eng.run(MINIMAX)
+    if flag is None:
+        return eng.run(MINIMAX)
+    return eng.run(MINIMAX, args=[None] * 6 + [C(bool(flag))])
+
+
+def subst_term(t, m):
+    if not isinstance(t, tuple):
+        return t
+    if t in m:
+        return m[t]
+    return tuple(subst_term(x, m) for x in t)
 
 
 def r1_key(ctx, outs):
@@ -118,15 +130,38 @@ def r1_key(ctx, outs):
 def loop_info(outs, flag):
     """collect the iteration structure of the branch maximizing_player == flag"""
     info = {'rec': set(), 'value_upd': set(), 'window_upd': set(), 'cut': set(), 'store': set(), 'ret': set(), 'init': {}, 'order': set()}
+    # loop-carried locals that no iteration path changes are loop invariants: they stand for their initial value (a merged loop declares
+    # `let mut beta = beta` for both players although only the minimising side ever tightens it)
+    inv = {}
+    changed = set()
+    for o in outs:
+        if o.kind == 'backedge' and o.locals:
+            hs = [e for e in o.events if e[0] == 'loop_head']
+            if hs:
+                for l, t0 in hs[0][3].items():
+                    if o.locals.get(l) != ('lv', hs[0][2], l):
+                        changed.add((hs[0][2], l))
+                    else:
+                        inv.setdefault((hs[0][2], l), t0)
+    inv = {('lv', h_, l): t0 for (h_, l), t0 in inv.items() if (h_, l) not in changed and isinstance(t0, tuple)}
     for o in outs:
         conds = dict(o.conds)
-        if conds.get(('p', 7)) != flag:
+        if flag is not None and conds.get(('p', 7)) != flag:
             continue
         heads = [e for e in o.events if e[0] == 'loop_head']
         if not heads:
             continue
+        if inv:
+            import copy as _copy
+            o = _copy.copy(o)
+            o.conds = [(subst_term(a, inv), v) for a, v in o.conds]
+            o.events = [subst_term(e, inv) if e[0] == 'call' else e for e in o.events]
+            o.value = subst_term(o.value, inv) if isinstance(o.value, tuple) else o.value
+            if o.locals:
+                o.locals = {l: (subst_term(t_, inv) if (isinstance(t_, tuple) and t_ not in inv) else t_) for l, t_ in o.locals.items()}
+            conds = dict(o.conds)
         head = heads[0]
-        before = head[3]
+        before = {l: t0 for l, t0 in head[3].items() if ('lv', head[2], l) not in inv}
         rec = [e for e in o.events if e[0] == 'call' and e[1] == MINIMAX]
         if not rec:
             # exhausted iterator: return after the loop
@@ -173,7 +208,7 @@ def r2_duality(ctx, outs, key):
     rule = 'C08.R2-branch-duality'
     for flag, name, op, init, own, other, childflag in ((1, 'maximising', 'std::cmp::max', I16MIN, 5, 6, False),
                                                        (0, 'minimising', 'std::cmp::min', I16MAX, 6, 5, True)):
-        info = loop_info(outs, flag)
+        info = loop_info(minimax_outcomes(ctx, flag=bool(flag)), None)
         if not info['rec']:
             ctx.anchor_missing(rule, MINIMAX, '%s loop not found' % name)
             continue
@@ -234,7 +269,7 @@ def r2_duality(ctx, outs, key):
         okr = bool(info['ret'])
         for kind, val, stored, skey in info['ret']:
             inner = dict(val[4])['0'] if val[0] == 'agg' and val[3] == 'Ok' else None
-            if stored is not None and (stored != inner or skey != key):
+            if stored is not None and (stored != inner or skey not in (key, subst_term(key, {('p', 7): C(bool(flag))}))):
                 okr = False
             if inner is None:
                 okr = False
